@@ -398,3 +398,30 @@ Definition agree_fourth_x (mu lmbda : list Q) (mats : list (list (list Q)))
       | Err _ => true
       end
   end.
+
+(* ------------------------------------------------------------------------------------ *)
+(* the argument checks of FourthOrderTensor.__init__                                      *)
+(* ------------------------------------------------------------------------------------ *)
+(* an argument is either not a numpy array (list, float, None ...) or an array with its
+   number of dimensions and its entries in C order (size = number of entries) *)
+Inductive arg (T : Type) := NotArray | Arr (ndim : nat) (data : list T).
+Arguments NotArray {T}.
+Arguments Arr {T} ndim data.
+
+(* isinstance(mu, ndarray); isinstance(lmbda, ndarray); mu.ndim == 1; lmbda.ndim == 1;
+   mu.size == lmbda.size — each failing test raises ValueError, in this order *)
+Definition fourth_order_checked {T} (ops : numops T) (mu lmbda : arg T) : res (@tensor4 T) :=
+  match mu with
+  | NotArray => Err ValueErr
+  | Arr nm dm =>
+      match lmbda with
+      | NotArray => Err ValueErr
+      | Arr nl dl =>
+          if negb (Nat.eqb nm 1) then Err ValueErr
+          else if negb (Nat.eqb nl 1) then Err ValueErr
+          else fourth_order ops dm dl
+      end
+  end.
+
+Definition agree_fourth_checked (mu lmbda : arg Q) impl0 : bool :=
+  agree_t4 (fourth_order_checked QOps mu lmbda) impl0.
